@@ -633,3 +633,48 @@ def r_mark_components_coherent(ctx, repo):
     if n < 2:
         raise AnalysisError('only %d Mark(...) constructions found' % n)
     return rule
+
+
+# ------------------------------------------------------------------------------------------ R-DISPATCH-NAMES-CLOSED
+def r_dispatch_names_closed(ctx, repo, modules):
+    """The analyses follow calls by name.  A method selected by a name that is computed at run time
+    (`getattr(self, 'process_%s_directive' % token.name.lower())(...)`) is reached by no call the analyses can see, and - when
+    the name is derived from the input - which code runs is chosen by the document.  After normalisation (constant tables are
+    expanded into the comparisons they abbreviate, literal names into attribute accesses) no such call may be left in the
+    given modules: what remains cannot be analysed, so it is reported as ANALYSIS-ERROR, not as a verdict."""
+    rule = ctx.rule('R-DISPATCH-NAMES-CLOSED', 'no method of the package is selected by a name computed at run time (after constant '
+                                               'tables and literal names have been folded)')
+    n = 0
+    bad = []
+    for f in repo.all_functions(modules):
+        n += 1
+        me = f.params[0] if f.params else None
+        called_names = set()
+        for x in walk_function(f.node):
+            if isinstance(x, ast.Call) and isinstance(x.func, ast.Name):
+                called_names.add(x.func.id)
+        for x in walk_function(f.node):
+            if not (isinstance(x, ast.Call) and isinstance(x.func, ast.Name) and x.func.id == 'getattr' and len(x.args) >= 2):
+                continue
+            if isinstance(x.args[1], ast.Constant):
+                continue
+            if not (isinstance(x.args[0], ast.Name) and x.args[0].id == me) and not (
+                    isinstance(x.args[0], ast.Attribute) and x.args[0].attr == '__class__'):
+                continue
+            par = getattr(x, '_parent', None)
+            is_called = isinstance(par, ast.Call) and par.func is x
+            if not is_called and isinstance(par, ast.Assign) and len(par.targets) == 1 and isinstance(par.targets[0], ast.Name):
+                is_called = par.targets[0].id in called_names
+            if not is_called and isinstance(par, ast.BoolOp):
+                gp = getattr(par, '_parent', None)
+                is_called = isinstance(gp, ast.Assign) and len(gp.targets) == 1 and isinstance(gp.targets[0], ast.Name) \
+                    and gp.targets[0].id in called_names
+            if is_called:
+                bad.append((f, x))
+    if bad:
+        f, x = bad[0]
+        raise AnalysisError('%s:%d %s: a method is selected by a computed name (%s) and then called: the code it reaches is not '
+                            'analysed, and which code runs may depend on the input' % (f.module.rel, x.lineno, f.qualname, norm(x)[:70]))
+    rule.ok('%d functions' % n, 'no call through a computed method name')
+    rule.instances += n
+    return rule
